@@ -128,17 +128,76 @@ def mk_caption(c):
                    layout_info=mk_layout(c.get('layout')), **kw)
 
 
+BUILD_PROBLEMS = []       # filled by mk_caption_set, drained by vf.core after every case
+BUILD_CHECKS = [0]
+
+
+def _staged(spec):
+    """One spec in four (a function of the spec alone, so that every process decides alike) is built the long
+    way round: see mk_caption_set."""
+    import hashlib
+    if 'staged' in spec:
+        return bool(spec['staged'])
+    return hashlib.md5(repr(spec).encode('utf-8', 'surrogatepass')).digest()[0] % 4 == 0
+
+
 def mk_caption_set(spec):
-    """spec = {'langs': [{'lang':, 'layout':, 'captions': [...]}], 'styles': {}, 'layout':}"""
+    """spec = {'langs': [{'lang':, 'layout':, 'captions': [...]}], 'styles': {}, 'layout':}
+    Normally everything is handed to the constructors.  A 'staged' spec is built the way a program edits a
+    set: captions are created one second late, looked at (repr / format_start) and then given their times;
+    the set starts with its first language only and is looked at (get_languages / get_styles / is_empty)
+    before the styles are added one by one with add_style and the other languages with set_captions.
+    Both ways must give the same set."""
     from pycaption.base import CaptionSet, CaptionList
-    d = {}
-    for l in spec['langs']:
-        d[l['lang']] = CaptionList([mk_caption(c) for c in l['captions']],
-                                   layout_info=mk_layout(l.get('layout')))
-    kw = {}
+    if not _staged(spec) or not spec['langs']:
+        d = {}
+        for l in spec['langs']:
+            d[l['lang']] = CaptionList([mk_caption(c) for c in l['captions']],
+                                       layout_info=mk_layout(l.get('layout')))
+        kw = {}
+        if spec.get('styles') is not None:
+            kw['styles'] = {k: dict(v) for k, v in spec['styles'].items()}
+        return CaptionSet(d, layout_info=mk_layout(spec.get('layout')), **kw)
+
+    def late(c):
+        cap = mk_caption(dict(c, start=c['start'] + 1000000, end=c['end'] + 1000000))
+        repr(cap)
+        cap.format_start()
+        cap.format_end(msec_separator=',')
+        cap.start, cap.end = c['start'], c['end']
+        return cap
+
+    def mk_list(l):
+        return CaptionList([late(c) for c in l['captions']], layout_info=mk_layout(l.get('layout')))
+
+    first = spec['langs'][0]
+    cs = CaptionSet({first['lang']: mk_list(first)}, layout_info=mk_layout(spec.get('layout')))
+    cs.get_languages()
+    list(cs.get_styles())
+    cs.is_empty()
     if spec.get('styles') is not None:
-        kw['styles'] = {k: dict(v) for k, v in spec['styles'].items()}
-    return CaptionSet(d, layout_info=mk_layout(spec.get('layout')), **kw)
+        for k, v in spec['styles'].items():
+            cs.add_style(k, dict(v))
+            list(cs.get_styles())
+    for l in spec['langs'][1:]:
+        cs.set_captions(l['lang'], mk_list(l))
+        cs.get_languages()
+    # monitor: what the set shows of itself must not depend on how it was put together
+    plain = mk_caption_set(dict(spec, staged=False))
+    a, b = caption_set(plain), caption_set(cs)
+    sa, sb = _plain(list(plain.get_styles())), _plain(list(cs.get_styles()))
+    BUILD_CHECKS[0] += 1
+    if a != b or sa != sb:
+        BUILD_PROBLEMS.append({
+            'what': 'the caption set of this case shows different languages / captions / styles when it is put '
+                    'together with set_captions / add_style / assigned times than when the same parts are '
+                    'handed to the constructors: whatever is written or computed from it is not what was put in',
+            'languages': [[l['lang'], len(l['captions'])] for l in a['langs']],
+            'languages_staged': [[l['lang'], len(l['captions'])] for l in b['langs']],
+            'styles': [k for k, _ in sa], 'styles_staged': [k for k, _ in sb],
+            'times_differ': [[c['start'], c['end']] for l in a['langs'] for c in l['captions']] !=
+                            [[c['start'], c['end']] for l in b['langs'] for c in l['captions']]})
+    return cs
 
 
 def text_lines(nodes_dump):
